@@ -135,6 +135,8 @@ def parse_log(data, res):
                     ev['e'] = obj['e']
                 if 'tgt' in obj:
                     ev['tgt'] = obj['tgt']
+                if 't' in obj:
+                    ev['t'] = obj['t']
         elif tag == b'X':
             res.crash = obj
         elif tag == b'S':
